@@ -417,6 +417,8 @@ class BaseMultipartText(BaseText):
             end = start + 1
         if end < 0:
             end = len(self) + end
+        if end < start:
+            end = start
         return self._slice_end(len(self) - start)._slice_beginning(end - start)
 
     def _slice_beginning(self, slice_length):
